@@ -100,7 +100,7 @@ def check(run):
     # many distinct values / keys: growth thresholds (8, 16, 32, 64 ...) of the slices and maps the helpers build internally
     for i in range(40 if run.quick() else 600):
         op = run.rng.choice(["GroupBy", "CountBy", "Distinct", "DistinctFunc", "Filter", "Except", "ExceptSetM", "ExceptSetS", "Map", "Fold", "FoldReverse"])
-        nk = run.rng.choice([9, 10, 17, 20, 33, 40])
+        nk = run.rng.choice([9, 10, 17, 20, 33, 40, 65, 129, 257] if i % 4 == 0 else [9, 10, 17, 20, 33, 40])
         n = run.rng.randint(nk, 3 * nk)
         s = [run.rng.randint(1, nk) for _ in range(n)]
         c = dict(op=op, s=s, a=run.rng.randint(0, nk), b=42, aux=[run.rng.randint(1, nk) for _ in range(run.rng.randint(0, 12))], fam="")
